@@ -144,6 +144,26 @@ def run(tier):
             if len(f) > 2 and f[2] != "tools=ok":
                 bad += 1; ck.violation("invalid-ir:%s:%s" % (label, f[2].split(":")[0]), "LLVM tools reject the %s IR: %s" % (label, f[2]), src)
     ck.log("other accepted inputs checked by the tools: %d" % acc)
+    # a module cannot define a function whose name it also imports: LLVM would rename one of the two
+    # (`@scale.1`) and the source function would not be defined under its name
+    dups = []
+    for di, (fa, fb) in enumerate([("pub fn scale", "pub fn scale"), ("pub fn scale", "fn scale"), ("pub extern fn scale", "fn scale"), ("pub fn scale", "extern fn scale")]):
+        util = "%s(x: i32) -> i32\n{\n\treturn: x * 2\n}\n" % fa
+        main_ = "import \"util.pn\";\n%s(x: i32) -> i32\n{\n\treturn: x * 3\n}\nfn main() -> i32\n{\n\treturn: scale(1)\n}\n" % fb
+        for order in (0, 1):
+            mods = [("util.pn", util), ("main.pn", main_)]
+            if order: mods.reverse()
+            dups.append(("du%d.%d" % (di, order), "".join("//// module %s\n%s" % m for m in mods)))
+    dimpl = C.run_harness("ir", dups, ck.work + "/dups", timeout=600)
+    for cid, src in dups:
+        f = dimpl.get(cid, ["missing"])
+        if f[0].startswith("ok"):
+            ir = "".join(f[1:])
+            renamed = sorted(set(re.findall(r"@(scale\.\d+)\(", ir)))
+            if renamed or len(re.findall(r"define [^\n]*@scale\(", ir.replace("\\n", "\n"))) != 2:
+                bad += 1; ck.violation("function-missing:renamed-by-llvm", "a module that imports `scale` and defines its own `scale` is accepted; the IR has %s instead of the source function" % (renamed or "one definition"), src)
+        elif not f[0].startswith("err codes="):
+            ck.violation(C.failure_key(f[0]), "compiler failed: " + f[0][:160], src)
     # the same through the real command line tool: what `penne run a.pn b.pn ...` hands to the interpreter
     # is the linked program (main.rs, not the harness, drives the stages here)
     from . import c18
